@@ -157,7 +157,14 @@ func Graph(rng *rand.Rand, name string, o GraphOpts) *spec.Spec {
 					uniq += pn
 				} else if how == "float" {
 					for j := range vals {
-						vals[j] = fmt.Sprintf("%d.5", 100+uniq+j)
+						switch (uniq + j) % 3 {
+						case 0:
+							vals[j] = fmt.Sprintf("%d.5", 100+uniq+j)
+						case 1: // ten significant digits: distinct values that collapse at 32-bit precision
+							vals[j] = fmt.Sprintf("0.12345%04d1", uniq+j)
+						default: // odd whole numbers above 2^24
+							vals[j] = fmt.Sprintf("%d", 16777217+2*(uniq+j))
+						}
 					}
 					uniq += pn
 				}
